@@ -196,7 +196,7 @@ theorem nvar_entries_tile (pol : Nat) (s : Nvram.Store) (b : Bytes) (hf : NvFait
     (s.entries.map (·.buf)).flatten = b.take s.fso ∧
     s.entries.map (·.offset) = NvFaithful.entryOffsets s.entries 0 ∧ (s.entries ≠ [] → s.fso ≤ b.length) ∧
     (s.gso ≤ s.fso ∨ Nvram.isErased pol (slice b s.fso (s.gso - s.fso)) = true) := by
-  obtain ⟨_, _, _, hgso, hE⟩ := hf
+  obtain ⟨_, _, _, hgso, hE, _⟩ := hf
   obtain ⟨_, h2, h3, h4, _, h6⟩ := NvFaithful.entries_tile pol b _ _ _ _ _ _ hE
   rw [← hgso] at h6
   refine ⟨?_, h4, h2, h6⟩
@@ -208,7 +208,7 @@ theorem nvar_table (pol : Nat) (s : Nvram.Store) (b : Bytes) (hf : NvFaithful.Nv
     s.guidStore.reverse.flatten = b.drop s.gso ∧ s.gso + 16 * s.guidStore.length = b.length ∧
     s.guidStore.length ≤ 255 ∧
     (s.guidStore.length = 0 ∨ ∃ v ∈ s.entries, ∃ i, v.guidIndex = some i ∧ s.guidStore.length = i + 1) := by
-  obtain ⟨_, _, hT, hgso, hE⟩ := hf
+  obtain ⟨_, _, hT, hgso, hE, _⟩ := hf
   refine ⟨by rw [hgso]; exact NvFaithful.table_bytes b _ hT, by have := hT.1; omega, hT.2.1, ?_⟩
   exact NvFaithful.table_minimal pol b _ _ _ _ _ _ hE
 
@@ -219,28 +219,39 @@ theorem nvar_guid_index (pol : Nat) (s : Nvram.Store) (b : Bytes) (hf : NvFaithf
     ∀ v ∈ s.entries, ∀ i, v.guidIndex = some i →
       (s.guidStore[i]? = some v.guid ∧ v.guid = Nvram.guidAt b i) ∨
       (v.guid = Nvram.zeroGuid ∧ (i = 255 ∨ b.length < 16 * (i + 1))) := by
-  obtain ⟨_, _, hT, _, hE⟩ := hf
+  obtain ⟨_, _, hT, _, hE, _⟩ := hf
   intro v hv i hi
   cases NvFaithful.guid_index_resolves pol b _ _ _ _ _ _ hE hT.2.1 v hv i hi with
   | inl h => exact Or.inl ⟨by rw [hT.2.2 i h.1, h.2], h.2⟩
   | inr h => exact Or.inr h
 
-/-- when the entries end at or before the GUID table, the store is entries ++ free space (the polarity
-    byte) ++ reversed table and nothing else — the layout C10's `Assemble` writes -/
-theorem nvar_store_partition (pol : Nat) (s : Nvram.Store) (b : Bytes) (hf : NvFaithful.NvF pol s b)
-    (hle : s.fso ≤ s.gso) :
+/-- the store is entries ++ free space (the polarity byte) ++ reversed table and nothing else — the
+    layout C10's `Assemble` writes.  The former hypothesis `s.fso ≤ s.gso` is a clause of `NvF` since
+    fixes/C04-nvar-table-overlap.diff (proved for every store `NewNVarStore` returns:
+    `Nvram.parseStore_fso_le_gso`, used by `nv_faithful`). -/
+theorem nvar_store_partition (pol : Nat) (s : Nvram.Store) (b : Bytes) (hf : NvFaithful.NvF pol s b) :
+    s.fso ≤ s.gso ∧
     b = (s.entries.map (·.buf)).flatten ++ List.replicate (s.gso - s.fso) (UInt8.ofNat pol) ++
         s.guidStore.reverse.flatten :=
-  (NvFaithful.store_partition pol s b hf hle).1
+  ⟨hf.2.2.2.2.2, (NvFaithful.store_partition pol s b hf hf.2.2.2.2.2).1⟩
 
-/-- the quirk that makes `fso ≤ gso` a hypothesis above: `NewNVarStore` accepts a 29-byte store whose
-    only entry fills it and whose GUID index 0 turns the entry's own last 16 bytes into the GUID table
-    (`FreeSpaceOffset` 29 > `GUIDStoreOffset` 13); reproduced on the real code, see reports/C04.md -/
-theorem nvar_overlap_witness :
+/-- after fixes/C04-nvar-table-overlap.diff `fso ≤ gso` is no hypothesis any more: EVERY store
+    `NewNVarStore` returns is entries ++ free space ++ reversed table and nothing else -/
+theorem nvar_store_partition_parsed (pol : Nat) (b : Bytes) (s : Nvram.Store)
+    (hp : Nvram.parseStore pol b = .ok s) :
+    s.fso ≤ s.gso ∧
+    b = (s.entries.map (·.buf)).flatten ++ List.replicate (s.gso - s.fso) (UInt8.ofNat pol) ++
+        s.guidStore.reverse.flatten :=
+  ⟨Nvram.parseStore_fso_le_gso pol b s hp, NvFaithful.store_partition_parsed pol b s hp⟩
+
+/-- the former quirk (finding 51): a 29-byte store whose only entry fills it and whose GUID index 0 turns
+    the entry's own last 16 bytes into the GUID table (`FreeSpaceOffset` 29 > `GUIDStoreOffset` 13) was
+    accepted by `NewNVarStore`; the repaired code refuses it -/
+theorem nvar_overlap_refused :
     (match Nvram.parseStore 0xFF NvFaithful.overlapStore with
-     | .ok s => (s.fso, s.gso, s.entries.map (fun v => (v.offset, v.size, v.guid == Nvram.content v)))
-     | .error _ => (0, 0, [])) = (29, 13, [(0, 29, true)]) :=
-  NvFaithful.overlap_witness
+     | .ok _ => false
+     | .error e => decide (e = Nvram.Err.parse)) = true :=
+  NvFaithful.overlap_refused
 
 /-- the extended header of an entry (`ExtOffset`, `ExtAttributes`, `Checksum`, `TimeStamp`, `Hash`): the
     model `extFields` of `parseExtendedHeader` succeeds exactly when C10's `extOk` says so, and the fields
